@@ -45,6 +45,10 @@ def work(args):
             ops, meta = [], []
             strings = set()
             for module, tag, ep in eps:
+                badn = epwork.non_identifier_params(ep)
+                if badn:
+                    out["skipped"].append((ep.name, "raw_fallback:" + ",".join(badn)))
+                    continue
                 try:
                     cep = epwork.cendpoint(ab, ep)
                 except Exception as e:
@@ -106,12 +110,14 @@ def expectation(doc, ep, vec):
                 exp["path"] = exp["path"].replace("{" + p.name + "}", s)
                 continue
             key = {"query": "query", "header": "headers", "cookie": "cookies"}[loc]
+            if loc in ("header", "cookie") and not p.name.isascii():
+                exp["non_ascii_header"] = True
             if v[0] == "unset" or (v[0] == "j" and v[1] is None and loc == "query"):
                 exp["absent_" + key].append(p.name)
                 continue
             if v[0] == "j" and v[1] is None:
                 continue          # None in a header / cookie: the document does not say what is sent (see header_none)
-            if loc in ("header", "cookie") and not json.dumps(v, ensure_ascii=False).isascii():
+            if loc in ("header", "cookie") and not (json.dumps(v, ensure_ascii=False).isascii() and p.name.isascii()):
                 exp["non_ascii_header"] = True     # HTTP header values are ASCII: no claim
                 continue
             if v[0] == "model":
@@ -139,9 +145,13 @@ def expectation(doc, ep, vec):
             exp["body_json"] = [x[1] for x in bv[1]]
         if ct.startswith("multipart/") and bv[0] == "model":
             fields = {}
+            declared = {"title", "count", "flag", "when", "kind", "tags", "meta", "ratio"}
             for k, v in bv[2].items():
                 if isinstance(v, (dict, list)):
-                    fields[k] = (v, "application/json")
+                    if k in declared:
+                        fields[k] = (v, "application/json")
+                    else:
+                        fields[k] = (None, "unspecified")     # untyped additional property holding a container: encoding not specified by the document
                 elif v is None:
                     continue
                 else:
@@ -212,7 +222,8 @@ def check_request(exp, call):
                         bad.append(f"JSON body {raw[:120]!r} != {exp['body_json']!r}")
                 elif ct == "application/x-www-form-urlencoded":
                     sent = dict(urllib.parse.parse_qsl(raw.decode(), keep_blank_values=True))
-                    want = {k: epwork.wire_str(("j", v)) for k, v in exp["body_json"].items() if v is not None}
+                    want = {k: epwork.wire_str(("j", v)) for k, v in exp["body_json"].items() if v is not None and not isinstance(v, (list, dict))}
+                    sent = {k: v for k, v in sent.items() if k in want or not (isinstance(exp["body_json"].get(k), (list, dict)) or (k in exp["body_json"] and exp["body_json"][k] is None))}
                     if sent != want:
                         bad.append(f"form body {sent!r} != {want!r}")
             except Exception as e:
@@ -244,6 +255,8 @@ def check_request(exp, call):
                     bad.append(f"multipart field {name!r} missing")
                 else:
                     b_, pct = got[name]
+                    if wct == "unspecified":
+                        continue
                     if wct == "application/json":
                         try:
                             if json.loads(b_) != want:
@@ -379,6 +392,10 @@ def run(run, tier, replay=None):
             if strip(rs) != strip(ra):
                 run.violation("oracle", {"label": results[di]["label"], "doc": results[di]["doc"], "op": c["op"], "args": c["vec"], "sync": rs, "asyncio": ra,
                                          "note": "blocking and asyncio variants sent different requests"})
+    for r in results:
+        for name, why in r.get("skipped", []):
+            if str(why).startswith("raw_fallback:"):
+                run.known_finding("raw_fallback", f"operation {name} of '{r['label']}': parameter python names {why[13:]} are not identifiers (colliding names fall back to the raw name); the module does not compile")
     run.extra["requests_checked_against_document"] = n_req
     run.extra["operations_skipped"] = sum(len(r.get("skipped", [])) for r in results)
     run.assumptions += ["abstraction harness/lib/epwork.py + absprop.py (Endpoint objects -> Endpoint.v terms)", "harness/lib/client_runner.py (serialises kwargs, captures requests behind httpx.MockTransport)",
